@@ -391,10 +391,11 @@ func siteOf(stderr string, timedOut bool) (ev, where string) {
 	}
 	// goroutine blocks; prefer a running/runnable goroutine that is inside repository (or bencode) code
 	blocks := regexp.MustCompile(`(?m)^goroutine \d+ `).Split(stderr, -1)
-	core := regexp.MustCompile(`rain/v2/internal/(piece|metainfo|allocator|storage)|zeebo/bencode|rain/v2/torrent\.\(\*(torrent|Session)\)`)
-	pick := func(needState bool, needCore bool) string {
+	coreA := regexp.MustCompile(`rain/v2/internal/(piece|piecepicker|metainfo|allocator|storage)[./]|zeebo/bencode`)
+	coreB := regexp.MustCompile(`rain/v2/torrent\.\(\*torrent\)`)
+	pick := func(needState bool, core *regexp.Regexp) string {
 		for _, b := range blocks[1:] {
-			if needCore && !core.MatchString(b) {
+			if core != nil && !core.MatchString(b) {
 				continue
 			}
 			if strings.Contains(b, "main.memWatch") || strings.Contains(b, "os/signal") || strings.Contains(b, "runtime.Stack") {
@@ -431,12 +432,15 @@ func siteOf(stderr string, timedOut bool) (ev, where string) {
 		}
 		return ""
 	}
-	s := pick(true, true)
-	if s == "" {
-		s = pick(false, true)
-	}
-	if s == "" {
-		s = pick(true, false)
+	// the busy goroutine: inside the packages under test first, then the torrent event loop, then anything of the repository
+	s := ""
+	for _, try := range []struct {
+		st   bool
+		core *regexp.Regexp
+	}{{true, coreA}, {true, coreB}, {false, coreA}, {true, nil}} {
+		if s = pick(try.st, try.core); s != "" {
+			break
+		}
 	}
 	if s == "" {
 		s = "?"
